@@ -104,12 +104,21 @@ CLAIMED.update({
    "SSA symbolic execution with heap freeze monitor + SMT, native replay"),
 })
 
+CLAIMED.update({
+ "C11": ("DESIGN.md 5/C11",
+   "Happens-before race monitor inside the symbolic concurrency runtime: vector clocks per goroutine and per synchronisation object (mutex/RWMutex, channel, WaitGroup, context, go), an access history per heap cell and map touched by the interpreted code; two accesses to one cell, one a write, unordered by happens-before on a feasible schedule are reported with both sites. Workloads: Value writer/reader/subscriber with interceptors reading their arguments, Collection generated-id adds, update/delete/get, pull readers, router registry, parent and electric models.",
+   "Trusted: symgo runtime; scheduler switches only at synchronisation operations (complete for the bound by the DRF argument). Native confirmation by go test -race naming the same function. Outside: pkg/wrap streams, group servers, anything inside stubbed libraries, workloads beyond 3-4 goroutines.",
+   "SSA symbolic execution with vector-clock race monitor + SMT, native replay under the Go race detector"),
+})
+
 NOT_YET = {}
 
 NA = {
  "C13": "Oracle is a real gRPC/HTTP2 connection (bufconn transport, flow control, goroutines inside grpc-go); it cannot be encoded for the solver and nothing else can stand in for it without becoming a second implementation.",
  "C14": "Lives in wrap + generated handlers + grpc-go metadata/context plumbing + reflect for ~30 servers; beyond a hand-written SSA executor here. Its resource-level content is decided under C01/C04/C06/C16 and routing under C12.",
 }
+
+HOOK_COMMITS = ['7517a3649d38fb05a2c7620af21939d9a2ec2fda', 'b09be76464588693ae75f65e9b07634b07f48a88', '664163afdd6fe4d949581a217897a7f1d257def8']
 
 def main():
     props = [json.loads(l)["id"] for l in open("/verif/properties.jsonl")]
@@ -145,9 +154,9 @@ def main():
         "setup_cmd": "cd /verif/engine && GOFLAGS=-mod=mod GOPROXY=off GOSUMDB=off GOTOOLCHAIN=local go build -o /verif/bin/symgo ./cmd/symgo",
         "hooks": {
             "guard": "verif",
-            "enable": "go build -tags verif (harnesses are injected by -overlay; no hook commits in /repo so far)",
+            "enable": "go test -tags verif -overlay <harness overlay> (internal/verifhook.Yield is a no-op without the tag; with it the native stress replay installs verifhook.Hook to perturb the schedule at the named yield points)",
             "baseline_off_cmd": "cd /repo && GOFLAGS=-mod=mod go test -vet=off -count=1 ./...",
-            "source_commits": [],
+            "source_commits": HOOK_COMMITS,
             "add_only": True,
         },
         "engines": [{
